@@ -7,7 +7,9 @@ first = {'C01-a':'first','C02-a':'first','C03-a':'first','C04-a':'after (engine 
  'C13-a':'first (check built after the seed)','C14-a':'after','C15-a':'first (check built after the seed)','C16-a':'first (check built after the seed)',
  'C17-a':'after','C18-a':'first (check built after the seed)','C19-a':'first','C20-a':'after',
  'C01-b':'after (counting of todo, then decided)','C02-b':'after (firstByte was a trusted summary; now verified)','C03-b':'after','C04-b':'first','C05-b':'first (binding)','C06-b':'first',
- 'C08-b':'after','C09-b':'first','C10-b':'first','C12-b':'first','C14-b':'first','C19-b':'first'}
+ 'C08-b':'after','C09-b':'first','C10-b':'first','C12-b':'first','C14-b':'first','C19-b':'first',
+ 'C07-b':'after','C11-b':'first','C13-b':'first','C15-b':'after (structFieldNames put under contract with reflect.Type observers as pure functions)',
+ 'C16-b':'after (makeCaller adapter: private argument vector per call)','C17-b':'first','C18-b':'after','C20-b':'first'}
 rows=[]
 for d in sorted(glob.glob('/verif/seeded/*/')):
     sid=os.path.basename(d.rstrip('/'))
